@@ -372,6 +372,87 @@ func registerIntrinsics(e *Engine) {
 		ex.pools[p] = append(ex.pools[p], a[1])
 		return nil
 	})
+	// ---- sync.Map: a map whose operations are atomic visible operations --------------------
+	// (the library's implementation rests on unsafe atomic pointers; the model keeps the
+	// contents in an engine map per sync.Map value, one per execution)
+	smap := func(ex *Exec, recv Value, write bool) *Map {
+		p := recv.(Ptr)
+		if p == nil {
+			panic(ex.rtPanic("invalid memory address or nil pointer dereference"))
+		}
+		ex.atomicOp(p)
+		if write {
+			ex.noteSyncWrite(p)
+		}
+		if ex.syncMaps == nil {
+			ex.syncMaps = map[Ptr]*Map{}
+		}
+		m := ex.syncMaps[p]
+		if m == nil {
+			m = newMap()
+			ex.syncMaps[p] = m
+		}
+		return m
+	}
+	reg("(*sync.Map).Load", func(ex *Exec, fn *ssa.Function, a []Value) Value {
+		m := smap(ex, a[0], false)
+		if v, ok := ex.mapLookup(m, a[1]); ok {
+			return Tuple{v, true}
+		}
+		return Tuple{Iface{}, false}
+	})
+	reg("(*sync.Map).Store", func(ex *Exec, fn *ssa.Function, a []Value) Value {
+		ex.mapUpdate(smap(ex, a[0], true), a[1], a[2])
+		return nil
+	})
+	reg("(*sync.Map).LoadOrStore", func(ex *Exec, fn *ssa.Function, a []Value) Value {
+		m := smap(ex, a[0], true)
+		if v, ok := ex.mapLookup(m, a[1]); ok {
+			return Tuple{v, true}
+		}
+		ex.mapUpdate(m, a[1], a[2])
+		return Tuple{a[2], false}
+	})
+	reg("(*sync.Map).LoadAndDelete", func(ex *Exec, fn *ssa.Function, a []Value) Value {
+		m := smap(ex, a[0], true)
+		if v, ok := ex.mapLookup(m, a[1]); ok {
+			ex.mapDelete(m, a[1])
+			return Tuple{v, true}
+		}
+		return Tuple{Iface{}, false}
+	})
+	reg("(*sync.Map).Delete", func(ex *Exec, fn *ssa.Function, a []Value) Value {
+		ex.mapDelete(smap(ex, a[0], true), a[1])
+		return nil
+	})
+	reg("(*sync.Map).Swap", func(ex *Exec, fn *ssa.Function, a []Value) Value {
+		m := smap(ex, a[0], true)
+		old, ok := ex.mapLookup(m, a[1])
+		ex.mapUpdate(m, a[1], a[2])
+		if ok {
+			return Tuple{old, true}
+		}
+		return Tuple{Iface{}, false}
+	})
+	reg("(*sync.Map).Range", func(ex *Exec, fn *ssa.Function, a []Value) Value {
+		m := smap(ex, a[0], false)
+		entries := append([]*MapEntry{}, m.entries...)
+		for _, e := range entries {
+			if e == nil || e.dead {
+				continue
+			}
+			if !ex.branch(ex.call(a[1], []Value{e.K, e.V}, nil)) {
+				break
+			}
+		}
+		return nil
+	})
+	reg("(*sync.Map).Clear", func(ex *Exec, fn *ssa.Function, a []Value) Value {
+		p := a[0].(Ptr)
+		smap(ex, a[0], true)
+		ex.syncMaps[p] = newMap()
+		return nil
+	})
 	// ---- sync/atomic typed values: sequentially consistent accesses (visible operations) ----
 	atomicField := func(ex *Exec, recv Value) *Value {
 		p := recv.(Ptr)
